@@ -6,7 +6,9 @@ set -u
 patch="$(readlink -f "$1")"; shift
 cd /verif
 if ! git -C /repo diff --quiet; then echo "refusing: /repo has uncommitted changes" >&2; exit 2; fi
-restore() { git -C /repo checkout -- . ; }
+# evidence written while /repo is modified must not survive: keep the clean files aside
+EVBAK=$(mktemp -d /verif/sim/target/evbak.XXXXXX); cp -a /verif/evidence/. "$EVBAK"/ 2>/dev/null
+restore() { git -C /repo checkout -- . ; rm -rf /verif/evidence; mkdir -p /verif/evidence; cp -a "$EVBAK"/. /verif/evidence/ 2>/dev/null; rm -rf "$EVBAK"; }
 trap restore EXIT
 git -C /repo apply "$patch" || { echo "patch does not apply" >&2; exit 2; }
 for p in "$@"; do
